@@ -625,9 +625,8 @@ func (ft *funcTrans) namesAtHeader(hdr *ssa.BasicBlock) map[string]Term {
 			if phi, isPhi := in.(*ssa.Phi); isPhi {
 				if phi.Comment != "" && phi.Comment != "rangeindex" {
 					if v, ok := ft.vals[phi]; ok && v.L == nil && v.Tup == nil && v.Bad == "" {
-						if _, isParam := ft.env[phi.Comment]; !isParam {
-							env[phi.Comment] = v.T
-						}
+						// a reassigned parameter: the name denotes the current value (name0 is the entry value)
+						env[phi.Comment] = v.T
 					}
 				}
 				continue
@@ -641,7 +640,17 @@ func (ft *funcTrans) namesAtHeader(hdr *ssa.BasicBlock) map[string]Term {
 				continue
 			}
 			if v, ok := ft.vals[dr.X]; ok && v.L == nil && v.Tup == nil && v.Bad == "" {
-				if _, isParam := ft.env[id.Name]; !isParam {
+				_, isParam := ft.env[id.Name]
+				if isParam {
+					// only a reference to the parameter itself (not a shadowing variable) rebinds its name
+					isParam = true
+					for _, prm := range ft.fn.Params {
+						if prm.Name() == id.Name && prm.Object() == dr.Object() {
+							isParam = false
+						}
+					}
+				}
+				if !isParam {
 					if _, isCell := ft.envCells[id.Name]; !isCell {
 						env[id.Name] = v.T
 					}
